@@ -87,6 +87,8 @@ class BasicConverter:
         loaded: dict[str, Any] = json.loads(data)
         args = [loaded.pop(name, self.args[name]) for name in self.args]
         kwargs = {name: loaded.pop(name, self.kwargs[name]) for name in self.kwargs}
+        if inspect.Parameter.empty in args or inspect.Parameter.empty in kwargs.values():
+            raise ValueError("Some of the required arguments are missing.")
         if self.all_kwargs:
             kwargs.update(loaded)
         elif self.all_args:
